@@ -135,8 +135,8 @@ Proof. induction l as [|e l IH]; intros H b i; simpl; auto. apply mf_inv in H as
 Lemma mf_run_depth l : marker_free l -> forall i, run_depth i l = Some i.
 Proof. induction l as [|e l IH]; intros H i; simpl; auto. apply mf_inv in H as [H1 H2].
   destruct e; simpl in H1; try discriminate; rewrite IH; auto. Qed.
-Lemma mf_repeat e n : is_marker e = false -> marker_free (repeat e n).
-Proof. intros H x Hx. apply repeat_spec in Hx. subst; auto. Qed.
+Lemma mf_versions k l : marker_free (map (VersionStmt k) l).
+Proof. intros x Hx. apply in_map_iff in Hx as (j & <- & _). reflexivity. Qed.
 
 (* ------------------------------------------------------------------ C. the abstract event sequence *)
 Definition wrap (b:bool) (l:list event) : list event := if b then Begin :: l ++ [Commit] else l.
@@ -147,7 +147,7 @@ Definition abs_item (tddl:bool) (k:N) (it:item) : list event :=
   end.
 Definition abs_core (tddl:bool) (k:N) (empty:bool) (s:ostep) : list event :=
   (if empty then [CreateVT k] else []) ++ Running k :: flat_map (abs_item tddl k) (os_body s)
-  ++ repeat (VersionStmt k) (os_nver s).
+  ++ map (VersionStmt k) (vidx (os_nver s)).
 Fixpoint abs_steps (tddl inner:bool) (k:N) (empty:bool) (steps:list ostep) : list event :=
   match steps with
   | [] => if empty then wrap inner [DropVT] else []
@@ -211,8 +211,8 @@ Section Refine.
   Lemma T_items tddl k body : T (flat_map (item_chunks d tddl k) body) = flat_map (abs_item tddl k) body.
   Proof. induction body as [|it body IH]; cbn [flat_map]; auto. rewrite T_app, IH, T_item; auto. Qed.
 
-  Lemma T_versions k n : T (concat (repeat (exec_chunk d (RVersion k)) n)) = repeat (VersionStmt k) n.
-  Proof. induction n as [|n IH]; cbn [repeat concat]; auto. rewrite T_app, IH, T_exec; auto. Qed.
+  Lemma T_versions k l : T (flat_map (fun j => exec_chunk d (RVersion k j)) l) = map (VersionStmt k) l.
+  Proof. induction l as [|j l IH]; cbn [flat_map map]; auto. rewrite T_app, IH, T_exec; auto. Qed.
 
   Lemma T_steps tddl pm steps : forall k empty,
     T (steps_chunks d (mkMcfg tddl pm false true) k empty steps) = abs_steps tddl (tddl && pm) k empty steps.
@@ -314,12 +314,12 @@ Proof. unfold abs_core. set (n := nauto (os_body s)). set (Q := P b (b + n) (Som
     - apply mf_cons; [reflexivity|apply mf_nil].
     - intros e [<-|[]]. unfold Q. simpl. repeat split; auto; try lia; try discriminate. }
   assert (S3 : Seg true b (flat_map (abs_item true k) (os_body s)) n Q) by apply body_seg.
-  assert (S4 : Seg true (b + n) (repeat (VersionStmt k) (os_nver s)) 0 Q).
+  assert (S4 : Seg true (b + n) (map (VersionStmt k) (vidx (os_nver s))) 0 Q).
   { apply Seg_mf.
-    - apply mf_repeat; reflexivity.
-    - intros e He. apply repeat_spec in He. subst. unfold Q. simpl. repeat split; auto; try lia; try discriminate. }
-  change (Running k :: flat_map (abs_item true k) (os_body s) ++ repeat (VersionStmt k) (os_nver s))
-    with ([Running k] ++ flat_map (abs_item true k) (os_body s) ++ repeat (VersionStmt k) (os_nver s)).
+    - apply mf_versions.
+    - intros e He. apply in_map_iff in He as (j & <- & _). unfold Q. simpl. repeat split; auto; try lia; try discriminate. }
+  change (Running k :: flat_map (abs_item true k) (os_body s) ++ map (VersionStmt k) (vidx (os_nver s)))
+    with ([Running k] ++ flat_map (abs_item true k) (os_body s) ++ map (VersionStmt k) (vidx (os_nver s))).
   replace n with (0 + (0 + (n + 0)))%nat at 1 by lia.
   apply Seg_app'; [exact S1|]. rewrite Nat.add_0_r.
   apply Seg_app'; [exact S2|]. rewrite Nat.add_0_r.
@@ -421,7 +421,7 @@ Proof. unfold no_auto. intros H. rewrite forallb_forall in *. intros it Hit. spe
   destruct it; simpl; auto. Qed.
 Lemma core_mf tddl k empty s : no_auto s = true \/ tddl = false -> marker_free (abs_core tddl k empty s).
 Proof. intros H. unfold abs_core. apply mf_app; [destruct empty; [apply mf_cons; [reflexivity|apply mf_nil]|apply mf_nil]|].
-  apply mf_cons; [reflexivity|]. apply mf_app; [|apply mf_repeat; reflexivity].
+  apply mf_cons; [reflexivity|]. apply mf_app; [|apply mf_versions].
   apply body_mf. destruct H as [H|H]; auto. left. apply no_auto_forallb; auto. Qed.
 Lemma steps_mf tddl steps : forall k empty, forallb no_auto steps = true \/ tddl = false ->
   marker_free (abs_steps tddl false k empty steps).
@@ -464,8 +464,8 @@ Lemma content_steps tddl inner steps : forall k empty,
 Proof. induction steps as [|s steps IH]; intros k empty; simpl.
   - destruct empty; auto. rewrite content_wrap. reflexivity.
   - rewrite filter_app, content_wrap, IH. unfold abs_core. rewrite filter_app. simpl. rewrite filter_app, content_body.
-    rewrite (content_all (repeat _ _)).
-    2:{ intros e He. apply repeat_spec in He. subst. reflexivity. }
+    rewrite (content_all (map _ _)).
+    2:{ intros e He. apply in_map_iff in He as (j & <- & _). reflexivity. }
     destruct empty; simpl; rewrite <- ?app_assoc; reflexivity. Qed.
 Lemma content_abs tddl pm r : filter content (abs tddl pm r) = expected_content r.
 Proof. unfold abs, expected_content. rewrite content_wrap. apply content_steps. Qed.
@@ -612,7 +612,7 @@ Lemma content_open b l : filter content (wrap_open b l) = filter content l.
 Proof. destruct b; reflexivity. Qed.
 Lemma content_core tddl k empty s : filter content (abs_core tddl k empty s) = step_content k empty s.
 Proof. unfold abs_core, step_content. rewrite filter_app. simpl. rewrite filter_app, content_body.
-  rewrite (content_all (repeat _ _)). 2:{ intros e He. apply repeat_spec in He. subst. reflexivity. }
+  rewrite (content_all (map _ _)). 2:{ intros e He. apply in_map_iff in He as (j & <- & _). reflexivity. }
   destruct empty; reflexivity. Qed.
 Lemma content_steps_cut tddl inner steps : forall k empty,
   filter content (abs_steps_cut tddl inner k empty steps) = expected_cut k empty steps.
@@ -697,3 +697,17 @@ Lemma override_routes_thm d pm b x r :
   offline_chunks d (mkOcfg (Some x) pm b None) r = offline_chunks d (mkOcfg None pm b (Some x)) r /\
   (forall y, offline_chunks d (mkOcfg (Some x) pm b (Some y)) r = offline_chunks d (mkOcfg (Some x) pm b None) r).
 Proof. split; reflexivity. Qed.
+
+(* ------------------------------------------------------------------ J. one statement of well-bracketedness *)
+Lemma well_bracketed_thm d c r : table_wf d = true ->
+  let E := strip_sep (offline_events d c r) in
+  (effective_tddl d c = true ->
+     framed false E /\
+     (forall e b i, In (e, b, i) (ann 0 false E) -> i = negb (is_auto e)) /\
+     (forall e b i, In (e, b, i) (ann 0 false E) -> is_auto e = true -> 1 <= b /\ b < count_begin E)) /\
+  (effective_tddl d c = false -> forall e, In e (offline_events d c r) -> is_marker e = false).
+Proof. intros Hwf E. split.
+  - intros Ht. split; [apply grammar_thm; auto|]. split; intros e b i Hin.
+    + apply (autocommit_thm d c r Hwf Ht e b i Hin).
+    + apply (autocommit_thm d c r Hwf Ht e b i Hin).
+  - intros Ht. apply no_markers_thm; auto. Qed.
